@@ -18,6 +18,10 @@ CLAIMED = {
          'The differ is modelled as a state machine whose only state is the table of differ overrides; Lean proves by induction over arbitrary finite histories that any call is answered as after replaying only the configuration calls since the last reset (C12_history_free), that diff calls write no state and that reset restores the initial state. The model is tied to the code by running generated histories (diff, merge under random strategies, ignore configuration, reset) in one interpreter, call by call in pristine interpreters (forked before anything ran, plus a sample of freshly spawned ones), and through the Lean state machine with the recorded oracle answers.',
          'Trusted: Lean kernel, axioms as above; oracle contract K1 (the lru_cache-d similarity predicates are functions of their arguments) is checked on recorded answers, not proved; merge calls are assumed not to write differ state in the model (checked by the fresh-vs-history comparison of every later call). Fork-from-pristine stands in for a fresh interpreter for most calls; a sample is re-run in real fresh interpreters.',
          '5/C12'),
+ 'C19': ('Lean theorem that layered recursive updates along the class linearisation equal "most specific section that sets it, else most specific declared default" + per-run extraction of the class table discharged by `decide` against the documented order + correspondence of build_config and the entry-point parsers',
+         'Lean proves, for every entry point table, every assignment of scalar values to any sections in any files and every option, that the value build_config computes is that of the most specific section (class-linearisation order) that sets it, else the default of the most specific class declaring it (C19_resolve_scalar), that a flag always wins and that the file read last (cwd) decides. The class table (sections, supported options, MRO of all 11 entry points) is extracted from the live classes on every run and a generated `decide` obligation checks that wherever the linearisation deviates from the documented specificity order no option is shared (C19_tableOk_sound says why that suffices). build_config for all entry points and the nbdiff/nbmerge/nbshow parsers are run in-process over generated section/file/flag assignments (three configuration directories, interleaved `--config` views) and compared with the Lean model and an executable statement of the documented rule.',
+         'Trusted: Lean kernel, axioms as above; traitlets/argparse/jupyter_core path order are inputs; the theorem covers scalar option values (the nested Ignore mapping is covered by the correspondence and the documented-rule comparison only). Known finding F-global (Global section inherited by no entry point) is matched by a classifier.',
+         '5/C19'),
  'C18': ('Lean theorems (idempotence, ownership, foreign-tool preservation, closure under command sequences by induction) on a git-config/attributes model + per-run AST extraction of the enable functions\' writes discharged by `decide` + correspondence against real git',
          'The eight enable/disable functions are modelled as transformers of a config store and an attributes file; Lean proves idempotence of every enable command, that no key outside nbdime\'s own keys/sections ever changes under any command sequence, that merge.tool / diff.guitool pointing at another tool survive every command without --set-default (and every sequence of such commands), that disable leaves no driver key, and that the attributes file keeps its content and gains at most the two nbdime lines. The git-config writes are extracted from the source by an AST walk on every run and compared with the model tables by generated `decide` obligations; command sequences run through the real entry points against real git (scratch HOME, repository and global scope) and are compared step by step with the model, with the property clauses also evaluated directly on the observed git state.',
          'Trusted: Lean kernel, axioms as above; git itself (single-valued keys; --unset/--remove-section semantics) is an input of the model, tied only by the sampled correspondence; system scope is not exercised; attributes content is chunked into nbdime lines and foreign text by the harness.',
